@@ -13,7 +13,7 @@ LEAN_MODEL_TARGETS = ["drv_c02"]
 LEAN_PROOF_TARGETS = ["PyroProps.C02"]
 AUDIT_FILES = ["PyroModel/PyLib.lean", "PyroModel/Expose.lean", "PyroModel/Gen/C02.lean", "PyroProofs/Expose.lean", "PyroProps/C02.lean"]
 THEOREMS = ["Pyro.C02.C02_translated_private", "Pyro.C02.C02_served_sound", "Pyro.C02.C02_refused_no_effect_partial", "Pyro.C02.C02_refused_no_effect_not_full",
-            "Pyro.C02.C02_batch_refused", "Pyro.C02.C02_history_no_memory", "Pyro.C02.C02_history_sound",
+            "Pyro.C02.C02_batch_refused", "Pyro.C02.C02_history_no_memory", "Pyro.C02.C02_history_sound", "Pyro.C02.C02_metadata_cache",
             "Pyro.C02.C02_served_complete", "Pyro.C02.C02_metadata_exact",
             "Pyro.C02.C02_expose_marks", "Pyro.C02.C02_inherited_unexposed_refused",
             "Pyro.C02.C02_private_refused", "Pyro.C02.C02_nonstring_refused", "Pyro.C02.C02_dotted",
@@ -27,8 +27,11 @@ RULE = ("class shapes generated from VERIF_SEED: 1-3 classes in an inheritance c
         "members; materialised with type() and the real decorators; requests = every key, its _/__/dunder/dotted/look-alike variants, "
         "reserved and ambient dunder names, non-string names, x {call, oneway call, attribute read, attribute write, batch, oneway "
         "batch, short argument lists, attribute requests with extra falsy arguments} sent as raw MSG_INVOKE to Daemon.handleRequest; "
+        "the same names through marshal / json / msgpack payloads written with the libraries themselves, also as bytes objects; objects "
+        "registered as instance, weakly (weak=True) or as a class; container-like targets with __len__ / __bool__; "
         "then a history of 0-4 run-time changes (instance attribute set/deleted, class member replaced/deleted, aimed at names served "
-        "at that moment) made after the metadata was fetched, each followed by requests judged against the object's state of that moment. A request is non-trivial when target code ran "
+        "at that moment) made after the metadata was fetched, each followed by requests judged against the object's state of that moment, with re-advertisements (cached, or after "
+        "resetMetadataCache: judged exact against the present state). A request is non-trivial when target code ran "
         "or the real gate passed the private-name test (reply is not the 'private' refusal); distinct = distinct (shape, request)")
 ASSUMPTIONS = ["Python object model as modelled in PyroModel/Expose.lean: data descriptor of the type > instance __dict__ > other "
                "class attribute, MRO order, getattr(cls, name) yields the property object unevaluated, a bound method's "
@@ -36,6 +39,8 @@ ASSUMPTIONS = ["Python object model as modelled in PyroModel/Expose.lean: data d
                "keys of one class dict are distinct; the target class defines no __getattr__/__getattribute__/__setattr__ of its own",
                "'private' is read as Pyro's is_private_attribute: reserved dunder table, or leading underscore unless the name "
                "is of dunder form with more than 4 characters (tests/test_server.py::testIsPrivateName)",
+               "server configuration as shipped; in particular DETAILED_TRACEBACK=False (with it enabled the traceback formatter calls repr() "
+               "on the locals of the failing frames, i.e. runs the target's __repr__ for every refused request — reported, not encoded)",
                "a property counts as explicitly exposed when the function expose() marks for it (fget or fset or fdel) is marked"]
 TRUSTED = ["harness/props/c02_real.py: FakeConn stands for the socket connection; classes made with type() stand for class statements",
            "the probe table in Gen/C02.lean is produced by calling the real decorators and gate functions at extraction time; its row "
@@ -523,7 +528,7 @@ def judge_metadata(shape, md, served):
 # =========================================================================================
 PUBLIC_KEYS = ["m", "n", "go", "val", "x", "item", "ｍ", "м", "naïve", "m2", "\U0001d426"]
 PRIVATE_KEYS = ["_m", "__m", "_x", "_", "__", "___", "_m_", "__m_", "____"]
-DUNDER_KEYS = ["__m__", "__dunder__", "__x__", "__len__", "__iter__"]
+DUNDER_KEYS = ["__m__", "__dunder__", "__x__", "__len__", "__iter__", "__len__"]
 SAFE_RESERVED_KEYS = ["__call__", "__copy__", "__deepcopy__", "__enter__", "__exit__", "__cmp__", "__coerce__", "__nonzero__",
                       "__hasattr__", "__getinitargs__", "__format__", "__sizeof__"]
 ODD_KEYS = ["a.b", "m.n", "m ", "M"]
@@ -535,6 +540,8 @@ AMBIENT = ["__dict__", "__doc__", "__module__", "__weakref__", "__class__", "__i
            "_pyroExposed", "_pyroOneway", "_pyroId", "_pyroDaemon", "_pyroInstancing", "fget", "fset", ""]
 HOMOGLYPH = {"m": "м", "a": "а", "o": "о", "e": "е", "x": "х", "n": "ո", "i": "і", "v": "ν",
              "g": "ɡ", "l": "ⅼ", "t": "ｔ"}
+ALT_SERIALIZERS = ["marshal", "json", "msgpack"]
+BYTES_SERIALIZERS = ["marshal", "msgpack"]
 NONSTR_TAGS = ["int", "none", "float", "bool", "tuple", "set", "list", "dict", "bytes", "false", "zero"]
 
 
@@ -620,7 +627,14 @@ class _Gen:
                 k = rng.choice(classes[0]["members"])[0]      # a base class member that the registered class overrides
                 if k not in keys:
                     keys.append(k)
-            classes.append({"expose": rng.random() < 0.35, "members": [[k, self.member(k)] for k in keys]})
+            members = [[k, self.member(k)] for k in keys]
+            if rng.random() < 0.2:
+                # container-like / truth-testable objects: __len__ or __bool__ as a plain method (code of the object that no request names)
+                k = rng.choice(["__len__", "__bool__"])
+                if k not in keys:
+                    members.append([k, {"k": "func", "f": {"name": k, "fid": self.next_id(), "expose": k == "__len__" and rng.random() < 0.3,
+                                                            "oneway": False}}])
+            classes.append({"expose": rng.random() < 0.35, "members": members})
         inst = []
         type_keys = [k for c in classes for k, _ in c["members"]]
         for _ in range(rng.choice([0, 0, 1, 2, 3])):
@@ -688,6 +702,13 @@ class _Gen:
                 q("<batch>", [n], batch=True)
                 if served:
                     q("<batch>", [rng.choice(served), n, rng.choice(served)], batch=True, oneway=rng.random() < 0.2)
+            if rng.random() < 0.5:
+                # re-advertise: without a reset the cached list is repeated; after resetMetadataCache it must be exact again
+                if rng.random() < 0.75:
+                    evs.append({"t": "rm"})
+                evs.append({"t": "gm"})
+        if evs and rng.random() < 0.5:
+            evs += [{"t": "rm"}, {"t": "gm"}]
         return evs
 
 
@@ -749,6 +770,21 @@ def gen_requests(rng, shape, reserved, thorough=False):
             q("__setattr__", [n, "v", falsy], oneway=rng.random() < 0.15)
             if rng.random() < 0.2:
                 q("__getattr__", [n, rng.choice(["x", {"ns": "int"}]), falsy])
+    # the same names through the other wire formats, and as BYTES objects (marshal and msgpack transport bytes unchanged):
+    # a non-string name is refused whatever the serializer
+    for n in keys:
+        if rng.random() < 0.5:
+            ser = rng.choice(ALT_SERIALIZERS)
+            reqs.append({"batch": False, "oneway": rng.random() < 0.2, "method": n, "args": [], "ser": ser})
+        if rng.random() < 0.6:
+            ser = rng.choice(BYTES_SERIALIZERS)
+            bn = {"b": n}
+            reqs.append({"batch": False, "oneway": rng.random() < 0.2, "method": bn, "args": [], "ser": ser})
+            reqs.append({"batch": False, "oneway": False, "method": "__getattr__", "args": [bn], "ser": ser})
+            reqs.append({"batch": False, "oneway": False, "method": "__setattr__", "args": [bn, "v"], "ser": ser})
+            if rng.random() < 0.4:
+                reqs.append({"batch": False, "oneway": False, "method": {"b": "__getattr__"}, "args": [n], "ser": ser})
+                reqs.append({"batch": True, "oneway": False, "method": "<batch>", "args": [bn], "ser": ser})
     served_keys = [k for k in keys if spec_allowed(shape, k)]
     for _ in range(10 if not thorough else 25):
         ln = rng.choice([0, 1, 1, 2, 3, 4])
@@ -805,8 +841,9 @@ class NameCodec:
     def __init__(self, real):
         from props import c02_real
         self.tags = {}
+        import serpent
         for tag, v in c02_real.NONSTR.items():
-            _, method, _, _ = real.ser.loadsCall(real.ser.dumpsCall("o", v, [], {}))
+            method = serpent.loads(serpent.dumps(v))      # what the wire format itself delivers (not Pyro's loadsCall)
             if isinstance(method, str):
                 raise RuntimeError("non-string %s arrives as str" % tag)
             self.tags[tag] = "u" if isinstance(method, (list, dict, bytearray)) else "h"
@@ -814,6 +851,10 @@ class NameCodec:
     def tok(self, n):
         if isinstance(n, str):
             return "s" + cps(n)
+        if "b" in n:
+            # a bytes object (marshal / msgpack transport it unchanged): hashable, but startswith('_') and getattr(cls, b'..')
+            # raise TypeError — the same answers as an unhashable value
+            return "u"
         return self.tags[n["ns"]]
 
 
@@ -833,6 +874,8 @@ def _event_tok(codec, ev):
         return ["ts", str(ev["ci"]), cps(ev["k"])] + _member_tok(ev["m"])
     if t == "td":
         return ["td", str(ev["ci"]), cps(ev["k"])]
+    if t in ("rm", "gm"):
+        return [t]
     raise ValueError(t)
 
 
@@ -885,7 +928,14 @@ def _sort_model_line(line):
         names = ["".join(chr(int(c)) for c in n.split(",")) for n in tok.split(";")]
         return _names_tok(sorted(names))
     toks[2], toks[4], toks[6] = srt(toks[2]), srt(toks[4]), srt(toks[6])
-    return " ".join(toks) + sep + rest
+    parts = []
+    for part in (rest.split(" | ") if rest else []):
+        if part.startswith("M "):          # a later advertisement in the history
+            t = part.split(" ")
+            t[1], t[3], t[5] = srt(t[1]), srt(t[3]), srt(t[5])
+            part = " ".join(t)
+        parts.append(part)
+    return " ".join(toks) + sep + " | ".join(parts)
 
 
 _ambient_cache = {}
@@ -929,12 +979,34 @@ def _load_corpus():
     return cases
 
 
-def run_case(real, codec, shape, reqs, prior=None):
+def _probe_served(real, names):
+    """which of the names are served right now, per request kind (plain non-oneway requests)"""
+    served = {}
+    for n in sorted(names):
+        s = {}
+        for kind, (method, args) in {"call": (n, []), "getattr": ("__getattr__", [n]), "setattr": ("__setattr__", [n, "v"])}.items():
+            reply, eff = real.request({"batch": False, "oneway": False, "method": method, "args": args})
+            s[kind] = reply == "result"
+        served[n] = s
+    return served
+
+
+def _md_part(tok):
+    """'M {json}' from the real side -> canonical 'M names O names A names'"""
+    md = json.loads(tok[2:])
+    return "M %s O %s A %s" % (_names_tok(md["methods"]), _names_tok(md["oneway"]), _names_tok(md["attrs"])), md
+
+
+def run_case(real, codec, shape, reqs, prior=None, reg="strong"):
     """real code: (prior object,) build, metadata, every request -> (build_err, md, [(reply, eff)])"""
-    err = real.build(shape, prior)
+    from props import c02_real
+    err = real.build(shape, prior, reg)
     if err:
         return err, None, []
-    md = real.metadata()
+    try:
+        md = real.metadata()
+    except c02_real.MetadataFailed as x:
+        return "nometadata", str(x), []
     results = [real.request(r) for r in reqs]
     return None, md, results
 
@@ -943,16 +1015,27 @@ def _shape_keys(shape):
     return {k for c in shape["classes"] for k, _ in c["members"]} | {k for k, _ in shape["inst"]}
 
 
-def _check_case(ctx, real, codec, shape, reqs, keys, tag, events=(), prior=None):
+def _check_case(ctx, real, codec, shape, reqs, keys, tag, events=(), prior=None, reg="strong"):
     """run one shape (and its history) on the real code, apply the property oracle (step D); returns the canonical real line"""
-    build_err, md, results = run_case(real, codec, shape, reqs, prior)
+    build_err, md, results = run_case(real, codec, shape, reqs, prior, reg)
     ctx.count("build:" + (build_err or "ok"))
+    ctx.count("registered:" + reg)
+    if build_err == "nometadata":
+        case = {"shape": shape, "req": None}
+        if prior:
+            case["prior"] = prior
+        if reg != "strong":
+            case["reg"] = reg
+        ctx.fail("metadata-request-failed", "the daemon does not advertise a member list for a registered object: %s [%s]" % (md, tag), case)
+        return "nometadata", []
     if prior:
         ctx.count("prior-same-named-class:%s" % real.prior_state)
 
     def with_prior(case):
         if prior:
             case["prior"] = prior
+        if reg != "strong":
+            case["reg"] = reg
         return case
     if build_err:
         return real_line(build_err, None, []), []
@@ -968,6 +1051,9 @@ def _check_case(ctx, real, codec, shape, reqs, keys, tag, events=(), prior=None)
         ctx.evaluations += 1
         kind = req_kind(r)
         ctx.count("%s%s%s:%s" % (stage, kind, "/oneway" if r["oneway"] else "", reply))
+        if r.get("ser"):
+            ctx.count("via-%s%s:%s" % (r["ser"], "/bytes-name" if any(isinstance(n, dict) and "b" in n for n in req_names(r)) else "",
+                                       reply.split(":")[0]))
         if eff or reply not in ("error:priv",):
             ctx.nontriv(shape_id + json.dumps([steps, r], sort_keys=True))
         if eff and len(ctx.samples) < 4 and len(shape_id) < 900 and (stage or len(ctx.samples) < 2):
@@ -1006,7 +1092,34 @@ def _check_case(ctx, real, codec, shape, reqs, keys, tag, events=(), prior=None)
     # ---- the history: run-time changes (metadata cache filled above, never reset), each request judged against the state of its moment
     cur, steps = shape, []
     results = list(results)
+    fresh = False                # True between a resetMetadataCache and the next advertisement
     for ev in events:
+        if ev["t"] in ("rm", "gm"):
+            out = real.step(ev)
+            steps = steps + [ev]
+            flags.append(False)
+            ctx.count("step:%s" % ev["t"])
+            if ev["t"] == "rm":
+                results.append(out)
+                fresh = True
+                continue
+            if out.startswith("Mfailed"):
+                results.append("Mfailed")
+                later.append(("metadata-request-failed", "the daemon does not advertise a member list for a registered object: %s [%s]" % (out, tag),
+                              with_prior({"shape": shape, "steps": list(steps[:-1]), "req": None})))
+                fresh = False
+                continue
+            part, md2 = _md_part(out)
+            results.append(part)
+            if fresh:
+                # advertised right after a reset: must again be exactly what is served in the object's present state
+                now = _probe_served(real, {k for c in cur["classes"] for k, _ in c["members"]} | set(md2["methods"]) | set(md2["attrs"]))
+                for sig, desc in judge_metadata(cur, md2, now):
+                    later.append((sig, desc + " (advertised after %d run-time change(s) and resetMetadataCache) [%s]" % (
+                        len([e for e in steps if e["t"] not in ("rm", "gm")]), tag),
+                        with_prior({"shape": shape, "steps": list(steps[:-1]), "req": None})))
+            fresh = False
+            continue
         if ev["t"] == "q":
             reply, eff = real.request(ev["req"])
             results.append((reply, eff))
@@ -1022,7 +1135,7 @@ def _check_case(ctx, real, codec, shape, reqs, keys, tag, events=(), prior=None)
                 steps = steps + [ev]
     line = real_line(None, md, results)
     for sig, desc, st, r in to_shrink:      # first failure of each class in a run: minimise shape and history (re-running the real code)
-        small, st2 = _shrink(real, shape, st, r, sig, prior)
+        small, st2 = _shrink(real, shape, st, r, sig, prior, reg)
         case = with_prior({"shape": small, "req": r})
         if st2:
             case["steps"] = st2
@@ -1032,11 +1145,14 @@ def _check_case(ctx, real, codec, shape, reqs, keys, tag, events=(), prior=None)
     return line, flags
 
 
-def _replay_case(real, shape, steps, req, prior=None):
+def _replay_case(real, shape, steps, req, prior=None, reg="strong"):
     """(prior object,) build, fetch the metadata (fills the member cache), apply the steps, send the request; -> (state description, reply, effects) or None"""
-    if real.build(shape, prior):
+    if real.build(shape, prior, reg):
         return None
-    real.metadata()
+    try:
+        real.metadata()
+    except Exception:
+        return None
     cur = shape
     for ev in steps:
         if real.step(ev) == "step":
@@ -1045,10 +1161,10 @@ def _replay_case(real, shape, steps, req, prior=None):
     return cur, reply, eff
 
 
-def _shrink(real, shape, steps, req, sig, prior=None):
+def _shrink(real, shape, steps, req, sig, prior=None, reg="strong"):
     """greedy removal of steps / members / instance attributes / empty classes while the real code still fails the same way"""
     def fails(sh, st):
-        out = _replay_case(real, sh, st, req, prior)
+        out = _replay_case(real, sh, st, req, prior, reg)
         return bool(out) and any(s == sig for s, _ in judge(out[0], req, out[1], out[2]))
     cur, cst = copy.deepcopy(shape), list(steps)
     if not fails(cur, cst):
@@ -1151,19 +1267,24 @@ def _run(ctx, name, nshapes, do_model, extra_shapes=()):
         if name == "corr":
             for c in _load_corpus():
                 keys = sorted(_shape_keys(c["shape"]))
-                cases.append((c["shape"], c["reqs"], keys, "corpus/" + c["corpus"], c.get("events", []), c.get("prior")))
+                cases.append((c["shape"], c["reqs"], keys, "corpus/" + c["corpus"], c.get("events", []), c.get("prior"), c.get("reg", "strong")))
         for i, shape in enumerate(extra_shapes):
             keys, reqs = gen_requests(rng, shape, reserved, False)
             gen.fid = 500
-            cases.append((shape, reqs, keys, "%s-seed#%d" % (name, i), gen.history(shape, keys), None))
+            cases.append((shape, reqs, keys, "%s-seed#%d" % (name, i), gen.history(shape, keys), None, "strong"))
         for i in range(nshapes):
             shape = gen.shape()
+            reg = rng.choice(["strong", "strong", "strong", "weak", "weak", "class"])
+            if reg == "class":
+                shape["inst"] = []          # the daemon makes the instance itself: no instance attributes
             keys, reqs = gen_requests(rng, shape, reserved, thorough and i % 20 == 0)
             events = gen.history(shape, keys)
-            cases.append((shape, reqs, keys, "%s#%d" % (name, i), events, gen.prior(shape) if rng.random() < 0.35 else None))
+            if reg == "class":
+                events = [e for e in events if e["t"] not in ("is", "id")]
+            cases.append((shape, reqs, keys, "%s#%d" % (name, i), events, gen.prior(shape) if rng.random() < 0.35 else None, reg))
         lines, reals, flagss = [], [], []
-        for shape, reqs, keys, tag, events, prior in cases:
-            line, flags = _check_case(ctx, real, codec, shape, reqs, keys, tag, events, prior)
+        for shape, reqs, keys, tag, events, prior, reg in cases:
+            line, flags = _check_case(ctx, real, codec, shape, reqs, keys, tag, events, prior, reg)
             reals.append(line)
             flagss.append(flags)
             if do_model:
@@ -1171,7 +1292,7 @@ def _run(ctx, name, nshapes, do_model, extra_shapes=()):
         if do_model:
             outs = common.run_driver("drv_c02", lines)
             ctx.corr_cases += sum(len(c[1]) + len(c[4]) for c in cases) + len(cases)
-            for (shape, reqs, keys, tag, events, prior), real_l, flags, model_l in zip(cases, reals, flagss, outs):
+            for (shape, reqs, keys, tag, events, prior, reg), real_l, flags, model_l in zip(cases, reals, flagss, outs):
                 model_l = _sort_model_line(model_l)
                 r, m = _apply_coarse(real_l, flags), _apply_coarse(model_l, flags)
                 if r == m:
@@ -1184,7 +1305,7 @@ def _run(ctx, name, nshapes, do_model, extra_shapes=()):
                 for i, (a, b) in enumerate(zip(rp[1:], mp[1:])):
                     if a != b:
                         steps = [e for e in items[:i] if e["t"] != "q"]
-                        case = {"shape": shape, "tag": tag, "req": items[i]["req"] if items[i]["t"] == "q" else None}
+                        case = {"shape": shape, "tag": tag, "reg": reg, "req": items[i]["req"] if items[i]["t"] == "q" else None}
                         if steps:
                             case["steps"] = steps
                         if items[i]["t"] != "q":
@@ -1226,39 +1347,42 @@ def replay(ctx, case):
     from props import c02_real
     real = c02_real.Real()
     try:
-        shape, req, steps, prior = c["shape"], c.get("req"), c.get("steps", []), c.get("prior")
-        err = real.build(shape, prior)
+        shape, req, steps, prior, reg = c["shape"], c.get("req"), c.get("steps", []), c.get("prior"), c.get("reg", "strong")
+        err = real.build(shape, prior, reg)
         if prior:
             print("registered first, an object of classes with the same module/qualified names (%s): %s" % (real.prior_state, json.dumps(prior["shape"])))
             if real.prior_state in ("kept", "gone"):
                 print("  its advertised metadata:", real.prior_md)
-        print("shape:", json.dumps(shape))
+        print("shape (registered: %s): %s" % ({"strong": "the instance", "weak": "the instance, weak=True", "class": "the class"}[reg], json.dumps(shape)))
         if err:
             print("the decorators refused the shape:", err)
             return 0
-        md = real.metadata()
+        try:
+            md = real.metadata()
+        except c02_real.MetadataFailed as x:
+            print("the daemon does not advertise a member list:", x)
+            print("VIOLATION reproduced")
+            return 1
         print("advertised metadata (this also fills the per-class member cache):", md)
-        bad = []
+        cur = shape
+        for ev in steps:
+            out = real.step(ev)
+            print("run-time change %s -> %s" % (json.dumps(ev), out))
+            if out == "step":
+                cur = apply_step(cur, ev)
         if req is not None:
-            cur = shape
-            for ev in steps:
-                out = real.step(ev)
-                print("run-time change %s -> %s" % (json.dumps(ev), out))
-                if out == "step":
-                    cur = apply_step(cur, ev)
             reply, eff = real.request(req)
             print("request %s -> reply %s, target code that ran (effect ids): %s" % (json.dumps(req), reply, eff))
             bad = judge(cur, req, reply, eff)
         else:
-            served = {}
-            for n in sorted(_shape_keys(shape) | set(md["methods"]) | set(md["attrs"])):
-                s = {}
-                for kind, (method, args) in {"call": (n, []), "getattr": ("__getattr__", [n]), "setattr": ("__setattr__", [n, "v"])}.items():
-                    reply, eff = real.request({"batch": False, "oneway": False, "method": method, "args": args})
-                    s[kind] = reply == "result"
-                served[n] = s
+            if steps:
+                print("resetMetadataCache ->", real.step({"t": "rm"}))
+                md = real.metadata()
+                print("advertised metadata now:", md)
+            served = _probe_served(real, {k for cl in cur["classes"] for k, _ in cl["members"]} | {k for k, _ in cur["inst"]}
+                                   | set(md["methods"]) | set(md["attrs"]))
             print("served:", served)
-            bad = judge_metadata(shape, md, served)
+            bad = judge_metadata(cur, md, served)
         for sig, desc in bad:
             print("  [%s] %s" % (sig, desc))
         print("VIOLATION reproduced" if bad else "not reproduced")
